@@ -184,6 +184,7 @@ func (e *Exclusive) call(c exclusiveConfig) <-chan *ExclusiveOutcome {
 		// lock item then the root to check if item is still valid
 		verifAt("excl.call.item.lock", e, 0)
 		item.mutex.Lock()
+		verifAt("excl.call.item.locked", e, 0)
 
 		var valid bool
 
@@ -299,6 +300,7 @@ func (e *Exclusive) call(c exclusiveConfig) <-chan *ExclusiveOutcome {
 						}
 						verifAt("excl.resolve.lock", e, 0)
 						item.mutex.Lock()
+						verifAt("excl.resolve.locked", e, 0)
 						item.result = result
 						item.err = err
 						item.complete = true
@@ -318,6 +320,7 @@ func (e *Exclusive) call(c exclusiveConfig) <-chan *ExclusiveOutcome {
 		// (setting nextItem.running to false is what actually triggers the next job, if any)
 		verifAt("excl.run.next.lock", e, 0)
 		nextItem.mutex.Lock()
+		verifAt("excl.run.next.locked", e, 0)
 		nextItem.running = false
 		if nextItem.count == 0 {
 			verifAt("excl.run.del.lock", e, 0)
